@@ -172,6 +172,10 @@ def run(ck, prog):
 
     ck.rule("R17.2", "ranges are paired with the file being walked")
     file_stack_rule(ck, prog, "R17.2")
+    # ranges are offsets into the tree's text: the tree is built over the whole document text
+    from .c01 import whole_text
+    ck.rule("R17.4", "the syntax tree is built over the whole text of the document (no prefix stripped before lexing)")
+    whole_text(ck, prog, "R17.4")
     # FileRange::new(file, ..) in the indexer: file is current_file_id()
     nf = 0
     for b, i, t in prog.call_sites(lambda c: c == "ide::file_system::FileRange::new"):
